@@ -19,6 +19,15 @@ for (a, b) in ((2, 1), (3, 1), (0, 0), (1, 0), (3, 0), (2, 2), (4, 0)):
                                   desc='one %s of key #%d from every well-formed state with %d slots chained in the 3-key collision bucket, %d in a second bucket, the rest free: representation invariant and map semantics hold afterwards' % (OPN[op], ki, a, b),
                                   bounds='4 slots, 3 buckets (one with three colliding keys); chain keys and values symbolic; growth by reserve() not included',
                                   assumptions=['pre-state satisfies the representation invariant INV (chains doubly linked, head.prev==NULL, every slot in exactly one of bucket chains / free list, size exact); INV is re-established by every step, so the result extends to histories of any length within the capacity']))
+for hib in (255, 128, 1):
+    for (a, b) in ((1, 1), (2, 2), (0, 1), (3, 0), (0, 0)):
+        quick = (hib, a, b) in ((255, 1, 1), (255, 2, 2), (128, 1, 1), (255, 3, 0))
+        OBLIGATIONS.append(Ob('C16.map.iter.a%db%d.hi%d' % (a, b, hib), 'C16', 'ir/c16_map.cpp', engine='ir', entry='harness_iter',
+                              defines=['ITER_A=%d' % a, 'ITER_B=%d' % b, 'HIB=%d' % hib], unwind=8,
+                              unwind_funcs={'^_ZN12BasicBankMapI[^E]*E(C2|5clear|5begin|8iteratorpp)': 260, '^_ZNK12BasicBankMapI[^E]*E5begin': 260, 'harness_iter': 260},
+                              ir_opts={'tv_vectors': 8}, tiers=('quick', 'thorough') if quick else ('thorough',), timeout={'quick': 600, 'thorough': 1800},
+                              desc='begin()/operator++/end() over every well-formed state with %d elements chained in bucket 0 and %d in bucket %d: every element visited exactly once, then end()' % (a, b, hib),
+                              bounds='4 slots; buckets 0 and %d (255 = last bucket); keys inside the collision classes and values symbolic' % hib))
 OBLIGATIONS.append(Ob('C16.cvt', 'C16', 'ir/c16_map.cpp', engine='ir', entry='harness_cvt', unwind=8, unwindset={'memcmp.0': 40},
                       repo_tus=['src/opnmidi_load.cpp'], ir_opts={'tv_vectors': 8},
                       desc='cvt_FMIns_to_OPNI(cvt_OPNI_to_FMIns(x)) == x for every OPN2_Instrument value; both voices identical',
